@@ -27,8 +27,8 @@ MaxProductIsOptimal ==
   CheckDef => \A i \in Samples : st.f # {} => BestRec(st.f, LL, i, G) = BestDef(st.f, LL, i, G)
 Vec(f) == [k \in 1..G |-> f[k - 1]]
 Rec == [st |-> st,
-        Z |-> [i \in Samples |-> Vec(ZRec(st.f, L, i, G))],
-        R |-> {[c |-> c, r |-> [i \in Samples |-> Vec(RRec(st.f, L, i, G, c))]] : c \in st.f},
+        Z |-> [i \in Samples |-> ZRecT(st.f, L, i, G)],
+        R |-> {[c |-> c, r |-> [i \in Samples |-> RRecT(st.f, L, i, G, c)]] : c \in st.f},
         best |-> [i \in Samples |-> IF st.f = {} THEN 0 ELSE BestRec(st.f, LL, i, G)]]
 Emit == Dump => PrintT(ToJson(Rec))
 =============================================================================
